@@ -48,14 +48,7 @@ def run(ctx):
 
 def _nodefault(ctx, index, env):
     f, _xname, yname, _fields, _joint, _ctor = c02.emit_lists(ctx, index)
-    builders = []
-    for n in iter_own(f.node):
-        if isinstance(n, (ast.Assign, ast.AnnAssign)) and n.value is not None:
-            tg = n.targets if isinstance(n, ast.Assign) else [n.target]
-            if any(norm(t) == yname for t in tg):
-                ew = c02.elementwise(n.value)
-                if ew is not None:
-                    builders.append(ew)
+    builders = c02.elementwise_local(f, yname)
     ctx.need(len(builders) == 1, "cannot find the element-wise expression that builds the default list")
     _it, binder, body, _flt = builders[0]
 
